@@ -487,6 +487,16 @@ def run(chk):
     r12_subgroup_cursor(chk, prog)
     chk.rule('R13', 'the value-list check accepts exactly the listed values', 3)
     r13_value_list_check(chk, prog)
+    # a key ends the value list of the previous argument also when the arguments live in different handlers of an
+    # argument group: table T2 of C08-R5 (the other tables of that rule belong to C08 only)
+    chk.rule('R14', 'argument groups: a key ends the open value list of every member (table T2 of C08-R5)', 8)
+    from . import c08 as _c08
+    sub8 = type(chk)(chk.pid, chk.tier)
+    sub8._known = []
+    _c08.r5_dispatch_table(sub8, prog)
+    for o in sub8.obligations:
+        if 'ends the open value list' in o['what']:
+            chk.check(o['status'] == 'held', 'R14', o['function'], o['what'], o['where'], o.get('detail', ''))
     sub = type(chk)(chk.pid, chk.tier)
     sub._known = []
     c02.r3_canonical_key(sub, prog)
